@@ -199,7 +199,14 @@ class Term(Node):
     def isin(self, arg: list | tuple | set | "Term") -> "ContainsCriterion":
         if isinstance(arg, set):
             # a set has no order of its own: written in one that does not change with the process' hash seed
-            arg = sorted(arg, key=lambda v: str(v) if isinstance(v, Term) else repr(v))
+            arg = sorted(
+                arg,
+                key=lambda v: (
+                    v.get_sql(DEFAULT_SQL_CONTEXT.copy(with_namespace=True))
+                    if isinstance(v, Term)
+                    else repr(v)
+                ),
+            )
         if isinstance(arg, (list, tuple)):
             return ContainsCriterion(self, Tuple(*arg))
         return ContainsCriterion(self, arg)
